@@ -400,7 +400,22 @@ func genTextStream(r *eng.Run, recv ref.Side) *Stream {
 	s := &Stream{}
 	budget := 1 << 20
 	nmsg := 1 + r.T.Int(sim.LNMsg, 3)
+	// Control frames outside the messages whose payload is no UTF-8 at all
+	// (it need not be: only text messages are text).
+	rawCtrl := func() {
+		f := &ref.Frame{Fin: true, Op: []byte{ref.OpPing, ref.OpPong}[r.T.Int(sim.LCtrl, 2)],
+			Payload: [][]byte{{0xff, 0xfe, 0x00, 0x80}, {0xc3}, {0xe2, 0x82}, {0x80, 'a'}, {0xed, 0xa0, 0x80}}[r.T.Int(sim.LCtrlLen, 5)]}
+		if recv == ref.Server {
+			f.Masked, f.Mask = true, drawMask(r)
+		}
+		s.Frames = append(s.Frames, f)
+		s.Items = append(s.Items, Item{Ctrl: f})
+		r.Probe("top_level_control_frame_that_is_no_utf8")
+	}
 	for i := 0; i < nmsg; i++ {
+		if r.T.Chance(sim.LCtrl, 1, 6) {
+			rawCtrl()
+		}
 		m := &Msg{Op: ref.OpText, Payload: drawText(r)}
 		if r.T.Chance(sim.LOp, 1, 4) {
 			m.Op = ref.OpBinary
@@ -434,6 +449,9 @@ func genTextStream(r *eng.Run, recv ref.Side) *Stream {
 			}
 		}
 		s.Items = append(s.Items, Item{Msg: m})
+	}
+	if r.T.Chance(sim.LCtrl, 1, 6) {
+		rawCtrl()
 	}
 	s.Wire = ref.Encode(s.Frames)
 	return s
@@ -520,6 +538,9 @@ func C07(r *eng.Run) {
 			return true
 		}
 		m := s.Items[unit].Msg
+		if m == nil {
+			return true
+		}
 		return m.Op == ref.OpText && !utf8.Valid(m.Payload)
 	}
 	p := NewPipe(r, s.Wire)
@@ -547,14 +568,14 @@ func C07(r *eng.Run) {
 	// First invalid text message, if any.
 	var badMsg *Msg
 	for _, it := range s.Items {
-		if it.Msg.Op == ref.OpText && !utf8.Valid(it.Msg.Payload) {
+		if it.Msg != nil && it.Msg.Op == ref.OpText && !utf8.Valid(it.Msg.Payload) {
 			badMsg = it.Msg
 			break
 		}
 	}
 	r.Note("C07 %s side=%d seg=%d stream: %s firstInvalid=%v", cfg.Name(), cfg.Side, p.SegMode, s.Describe(), badMsg != nil)
 	for _, it := range s.Items {
-		if it.Msg.Op == ref.OpBinary && !utf8.Valid(it.Msg.Payload) && (badMsg == nil || it.Msg.First.Off < badMsg.First.Off) {
+		if it.Msg != nil && it.Msg.Op == ref.OpBinary && !utf8.Valid(it.Msg.Payload) && (badMsg == nil || it.Msg.First.Off < badMsg.First.Off) {
 			r.Probe("binary_with_invalid_utf8")
 		}
 	}
@@ -611,6 +632,14 @@ func c07Tolerant(r *eng.Run, cfg ReadCfg, s *Stream, p *Pipe) {
 	}
 	for i, it := range s.Items {
 		m, g := it.Msg, got[i]
+		if m == nil {
+			// A control frame outside the messages: delivered as it is,
+			// whatever its bytes.
+			if g.Rejected || g.Kind != 'C' || (!g.Partial && !bytes.Equal(g.Data, it.Ctrl.Payload)) {
+				r.Failf("valid_text_rejected", "tolerant Reader: unit %d is a %s outside any message; it was handed out as kind=%c rejected=%v with %x", i, frameStr(it.Ctrl), g.Kind, g.Rejected, g.Data)
+			}
+			continue
+		}
 		invalid := m.Op == ref.OpText && !utf8.Valid(m.Payload)
 		switch {
 		case invalid && !g.Rejected:
